@@ -60,6 +60,11 @@ def default_start(fm, f):
 def eff_start(fm, f):
     if not is_derived(f):
         return 0
+    if f.get('kind') == 'transition':
+        # `Transition` takes no start argument: "the current trial and the immediately preceding trial", first level
+        # at trial 1 (A12: for a Transition over a complex derived factor the docs' "equivalent to Window(width 2)" would
+        # give a later automatic start; the generator builds those shapes with Window instead)
+        return 1
     if f.get('start') is None:
         return default_start(fm, f)
     return f['start']
@@ -250,6 +255,19 @@ def finalize(fm, sem, top_mode, keep_scale, opts):
     """sizes, T, scales, starts, chunks (documented arithmetic)."""
     for cx in sem.cxs:
         combos = possible_combos(fm, sem, cx.factors)
+        # A11: the docs say that excluded levels "of a crossed factor" and combinations excluded "by the definition" of
+        # derived levels shrink the crossing; whether an Exclude on a factor outside the crossing does is not determined
+        crossed = set(cx.factors)
+        keep = [e for e in sem.excludes if e[0] in crossed]
+        if len(keep) != len(sem.excludes):
+            saved = sem.excludes
+            sem.excludes = keep
+            try:
+                alt = possible_combos(fm, sem, cx.factors)
+            finally:
+                sem.excludes = saved
+            if alt != combos:
+                raise RefUnsupported('A11: Exclude outside the crossing removes crossing combinations')
         full = full_crossing_size(fm, cx.factors)
         size = sum(w for _, w in combos)
         if size != full and sem.rcc:
